@@ -12,3 +12,12 @@ ASSUME = {"*": ["little-endian x86-64 host", "the compilers preserve source sema
 LEVEL = {p: ("proof", "Theorems of coq/Properties_%s.v re-checked by a full .vo build; the model they speak about is compared with the "
                        "library built from /repo's current working tree on generated operation scripts (counts in this file)." % p)
          for p in ["C%02d" % i for i in range(1, 21)]}
+
+import json, os
+try:
+    _m = json.load(open(os.path.join(os.path.dirname(os.path.dirname(os.path.abspath(__file__))), "MANIFEST.json")))
+    for c in _m["checks"]:
+        LEVEL[c["property_id"]] = (c["level_claimed"]["category"], c["level_claimed"]["text"])
+        ASSUME[c["property_id"]] = ASSUME["*"] + [c["level_note"]]
+except Exception:
+    pass
